@@ -67,7 +67,7 @@ def regression_case(Dw, Dy, N, concrete=(), timeout=900, cond="full", via="Sigma
             b.diag("Sy", N, Dy)
         else:
             _bind(b, "Sy", "spd", (N, Dy), "Sy" in concrete)
-        if via == "Lambda":
+        if via in ("Lambda", "SigmaLambda"):
             from .c02 import _inv_of
             b.derived("Ly", (N, Dy, Dy), _inv_of("Sy", N, Dy))
         b.free("y", (N, Dy))
@@ -87,6 +87,8 @@ def regression_case(Dw, Dy, N, concrete=(), timeout=900, cond="full", via="Sigma
             prior = measure.GaussianMeasure(Lambda=A["Lw"], nu=jnp.einsum("rij,rj->ri", A["Lw"], A["mw"]), ln_beta=jnp.ones((1,))).get_density()
         ccls = conditional.ConditionalGaussianDiagPDF if cond_kind == "diag" else conditional.ConditionalGaussianPDF
         covkw = {"Lambda": A["Ly"]} if via == "Lambda" else {"Sigma": A["Sy"]}
+        if via == "SigmaLambda":      # covariance AND a consistent precision, log-determinant left to the constructor
+            covkw = {"Sigma": A["Sy"], "Lambda": A["Ly"]}
         cond = ccls(M=A["M"], b=A["bb"], **covkw)
         y = A["y"]
         out = {"seq": []}
@@ -283,6 +285,8 @@ def cases(tier, seed=0):
            regression_case(1, 1, 2, cond="diag", via="Lambda"),
            regression_case(1, 1, 2, cond="full", via="Lambda"),
            regression_case(1, 1, 2, cond="diag", via="Sigma"),
+           regression_case(1, 1, 2, cond="full", via="SigmaLambda"), regression_case(1, 1, 2, cond="diag", via="SigmaLambda"),
+           # (Dw=Dy=2 with a symbolic noise covariance built both ways did not finish in 20 min: outside the bounds)
            regression_case(1, 1, 2, prior_via="SigmaLambda"), regression_case(1, 1, 2, prior_via="all"),
            regression_case(1, 1, 2, prior_via="measure"), regression_case(1, 1, 2, prior_via="diag"),
            regression_case(2, 1, 2, concrete=("M", "Sy"), prior_via="SigmaLambda"), regression_case(2, 1, 2, concrete=("M", "Sy"), prior_via="diag"),
